@@ -212,6 +212,33 @@ fn run() -> Result<(), Fail> {
     if cur.is_some() || block.is_some() {
         bail!("template ended inside a //@fn or block");
     }
+    // module-level `const`s of the source files that an extracted body mentions are copied (types through rule X1)
+    {
+        let mut emitted: std::collections::BTreeSet<String> = Default::default();
+        let mut extra = String::new();
+        for (rel, ast) in files.iter() {
+            for it in &ast.items {
+                if let syn::Item::Const(c) = it {
+                    let name = c.ident.to_string();
+                    let used = pr.out.split(|ch: char| !(ch.is_alphanumeric() || ch == '_')).any(|w| w == name);
+                    let declared = pr.out.contains(&format!("const {}", name));
+                    if used && !declared && !emitted.contains(&name) {
+                        let ty = quote::ToTokens::to_token_stream(&c.ty).to_string();
+                        let ex = quote::ToTokens::to_token_stream(&c.expr).to_string();
+                        if ["usize", "u64", "u32", "i64", "i32", "bool", "u8"].contains(&ty.as_str()) {
+                            extra.push_str(&format!("verus! {{ pub const {}: {} = {}; }} // copied from {}\n", name, ty, ex, rel));
+                            emitted.insert(name);
+                        }
+                    }
+                }
+            }
+        }
+        if !extra.is_empty() {
+            for l in extra.lines() {
+                pr.template_line(0, l);
+            }
+        }
+    }
 
     fs::write(&args[3], &pr.out).map_err(|e| Fail(format!("write {}: {}", args[3], e)))?;
     let map = json!({
